@@ -523,7 +523,7 @@ pub fn mojang_host(rep: &Report, prop: &str) {
     for v in ["http_proxy", "HTTP_PROXY", "https_proxy", "HTTPS_PROXY", "all_proxy", "ALL_PROXY"] {
         unsafe { std::env::remove_var(v) };
     }
-    let ids: Vec<&str> = vec!["", "lobby", "exactly-twenty-chars", "twenty-one-characters", "a server id of forty-three characters, long", "0042"];
+    let ids: Vec<&str> = vec!["", "lobby", "exactly-twenty-chars", "twenty-one-characters", "a server id of forty-three characters, long", "0042", "s\u{fc}d-1", "\u{30ed}\u{30d3}\u{30fc}", "\u{43b}\u{43e}\u{431}\u{431}\u{438}-\u{441}\u{435}\u{440}\u{432}\u{435}\u{440}-01"];
     let names: Vec<&str> = if prop == "C12" { vec!["Plain_Name", "a&serverId=1", "x?y#z", "%26%3D%23", "n m+o", "../../x", "ü&ß=1"] } else { vec!["Plain_Name", "Second_Name"] };
     let out: Mutex<Vec<Viol>> = Mutex::new(vec![]);
     let conns = std::sync::atomic::AtomicU64::new(0);
@@ -570,6 +570,17 @@ pub fn mojang_host(rep: &Report, prop: &str) {
                 let key = o.packets.iter().find_map(|p| if let Pkt::EncryptionRequest { public_key, .. } = p { Some(public_key.clone()) } else { None }).unwrap_or_default();
                 let granted = o.packets.iter().find_map(|p| if let Pkt::LoginSuccess { name, .. } = p { Some(name.clone()) } else { None });
                 done.push((p.name.clone(), p.secret, key, granted, format!("one of the first two, overlapping logins of the process ({:?} {:?})", o.stage, o.error)));
+            }
+            // forty clients whose Encryption Response does not decrypt (they are refused; whatever the router does about
+            // such clients, the logins that follow are ordinary ones)
+            for _ in 0..40 {
+                if let Ok(mut c) = McClient::connect(addr, None).await {
+                    let p = LoginParams { name: "Garbage".into(), wait: Duration::from_secs(2), ..Default::default() };
+                    let mut o = LoginOutcome { packets: vec![], stage: Stage::Connected, error: None };
+                    c.login(&p, Stage::Connected, Stage::EncryptionRequestReceived, &mut o).await;
+                    let _ = c.send(&codec::sb_encryption_response(&[0x5a; 128], &[0xa5; 128])).await;
+                    let _ = c.wait_closed(Duration::from_millis(500)).await;
+                }
             }
             for (k, name) in names.iter().enumerate() {
                 let mut secret = *b"later-secret-00x";
